@@ -264,6 +264,43 @@ def build(run):
         return proved("exec+structural", vcs=n, sample=f"{n} compound operators on zero operands (three spellings, rectangular shapes): textbook shape before and after lowering, value 0")
     run.add("public-operators/zero-operands-keep-the-operator-shape", zero_operands, kind="values")
 
+    # ---- operands that carry a FREE INDEX: a compound operator either refuses them or its node reports exactly the free indices (and shape) its lowering has
+    def free_index_operands():
+        import ufl
+        from ufl.algorithms.apply_algebra_lowering import apply_algebra_lowering
+        from ufl.core.multiindex import Index as _Index
+        import ufv.elements as _E
+        from ufv.core import crash_text, deliberate
+        tri_ = mesh("triangle")
+        T2 = ufl.Coefficient(ufl.FunctionSpace(tri_, _E.LagrangeElement(tri_.ufl_cell(), 1, (2, 2))))
+        T3 = ufl.Coefficient(ufl.FunctionSpace(tri_, _E.LagrangeElement(tri_.ufl_cell(), 1, (2, 2, 2))))
+        k_ = _Index()
+        vec_k = ufl.as_vector([T2[0, k_], T2[1, k_]])                       # a 2-vector carrying the free index k
+        mat_k = ufl.as_matrix([[T3[0, 0, k_], T3[0, 1, k_]], [T3[1, 0, k_], T3[1, 1, k_]]])      # a 2x2 matrix carrying k
+        ops = {"perp": (ufl.perp, vec_k), "transpose": (ufl.transpose, mat_k), "tr": (ufl.tr, mat_k), "det": (ufl.det, mat_k), "inv": (ufl.inv, mat_k), "cofac": (ufl.cofac, mat_k),
+               "dev": (ufl.dev, mat_k), "skew": (ufl.skew, mat_k), "sym": (ufl.sym, mat_k), "diag": (ufl.diag, mat_k), "diag_vector": (ufl.diag_vector, mat_k),
+               "outer(a, a)": (lambda a_: ufl.outer(a_, vec_k), T2[:, 0]), "inner(a, a)": (lambda a_: ufl.inner(a_, T2[:, 0]), vec_k), "dot(A, a)": (lambda a_: ufl.dot(a_, T2[:, 0]), mat_k),
+               "cross-free: elem_mult": (lambda a_: ufl.elem_mult(a_, T2[:, 0]), vec_k)}
+        n = 0
+        for nm_, (op_, arg_) in ops.items():
+            try:
+                e_ = op_(arg_)
+            except (ValueError, NotImplementedError) as ex:
+                if not deliberate(ex):
+                    return violated(f"{nm_} of an operand with a free index crashed: {crash_text(ex)}", reproduced=True, backend="exec")
+                n += 1
+                continue            # refused
+            try:
+                low = apply_algebra_lowering(e_)
+            except (ValueError, NotImplementedError) as ex:
+                return violated(f"{nm_} accepts an operand with a free index but its lowering fails: {crash_text(ex)}", replay={"operator": nm_}, reproduced=True, backend="exec")
+            n += 1
+            if tuple(e_.ufl_free_indices) != tuple(low.ufl_free_indices) or tuple(e_.ufl_shape) != tuple(low.ufl_shape):
+                return violated(f"{nm_} of an operand with the free index {k_}: the node reports shape {e_.ufl_shape} and free indices {e_.ufl_free_indices}, its lowering has shape "
+                                f"{low.ufl_shape} and free indices {low.ufl_free_indices}", replay={"operator": nm_, "node": str(e_)[:300], "lowered": str(low)[:300]}, reproduced=True, backend="structural")
+        return proved("exec+structural", vcs=n, sample=f"{n} compound operators on operands carrying a free index: refused, or shape and free indices agree with the lowering")
+    run.add("public-operators/operands-with-free-indices", free_index_operands, kind="values")
+
     def canary():
         A = Opq("A", (2, 2))
         r = CE.determinant_expr(A)
